@@ -209,6 +209,7 @@ type mSide struct {
 	Ops     []string        // executed statements ({T} placeholder kept)
 	Touched map[string]bool // keys this side inserted / updated / deleted
 	Phys    []string                   // column names in the table's physical (DDL) order
+	WideRows int                        // rows changed by the widest wide statement
 	UpdCols map[string]map[string]bool // key -> names of the columns this side assigned by UPDATE (only while the key was never inserted/deleted here)
 }
 
@@ -286,14 +287,20 @@ type mOpOpts struct {
 	keyMax   int
 	hot      []string // keys touched by the other side (collision bias)
 	other    *mSide   // the other side after its history (nil while generating the first side): directed ops
+	hotPct   int      // chance (tenths) of picking a key the other side touched; 0 = 4
 	maxRange int      // widest pk range of a ranged UPDATE / DELETE
+	wide     int      // > 0: a quarter of the statements are wide (pk ranges up to this many keys, block inserts)
 	wInsert  int      // weights
 	wUpdate  int
 	wDelete  int
 }
 
 func (s *mSide) genKey(rt *rapid.T, label string, o mOpOpts) []string {
-	if len(o.hot) > 0 && rapid.IntRange(0, 9).Draw(rt, label+".hot") < 4 {
+	hp := o.hotPct
+	if hp == 0 {
+		hp = 4
+	}
+	if len(o.hot) > 0 && rapid.IntRange(0, 9).Draw(rt, label+".hot") < hp {
 		return strings.Split(rapid.SampledFrom(o.hot).Draw(rt, label+".hotkey"), "\x1f")
 	}
 	if n := len(s.T.Rows); n > 0 && rapid.IntRange(0, 9).Draw(rt, label+".existing") < 3 {
@@ -337,6 +344,11 @@ func (s *mSide) genOp(rt *rapid.T, label string, o mOpOpts) string {
 			s.Ops = append(s.Ops, stmt)
 			return stmt
 		}
+	}
+	if o.wide > 0 && mOneIn(rt, label+".wide", 2) {
+		stmt = s.genWide(rt, label, o)
+		s.Ops = append(s.Ops, stmt)
+		return stmt
 	}
 	switch {
 	case c < o.wInsert:
@@ -421,6 +433,98 @@ func (s *mSide) genUpdate(rt *rapid.T, label string, o mOpOpts) string {
 		s.Touched[k] = true
 	}
 	return fmt.Sprintf("UPDATE {T} SET %s WHERE %s", strings.Join(sets, ", "), p.sql(s))
+}
+
+// genWide: a statement that changes a whole run of keys (several chunks of the row index):
+// ranged UPDATE (constant or computed per row), ranged DELETE, or a block INSERT of new keys.
+func (s *mSide) genWide(rt *rapid.T, label string, o mOpOpts) string {
+	lo := rapid.IntRange(0, o.keyMax-1).Draw(rt, label+".wlo")
+	w := rapid.IntRange(o.wide/4, o.wide).Draw(rt, label+".wwidth")
+	changed := 0
+	defer func() {
+		if changed > s.WideRows {
+			s.WideRows = changed
+		}
+	}()
+	switch k := rapid.IntRange(0, 9).Draw(rt, label+".wkind"); {
+	case k < 6: // update
+		idx := s.NPK + rapid.IntRange(0, len(s.Cols)-s.NPK-1).Draw(rt, label+".wcol")
+		c := s.Cols[idx]
+		p := mPred{kind: 1, lo: lo, hi: lo + w}
+		modK, val := 0, ""
+		var set string
+		if (c.Kind == mInt || c.Kind == mBig) && rapid.Bool().Draw(rt, label+".wcomputed") {
+			modK = rapid.IntRange(1, 4).Draw(rt, label+".wmodk")
+			set = fmt.Sprintf("%s = (pk + %d) %% 5", c.Name, modK)
+		} else {
+			val = c.genVal(rt, label+".wval")
+			set = c.Name + " = " + mLit(val, c.Kind)
+		}
+		for _, k := range s.T.Keys() {
+			if !p.match(k) {
+				continue
+			}
+			nv := val
+			if modK > 0 {
+				nv = strconv.Itoa((mKeyPK1(k) + modK) % 5)
+			}
+			if s.T.Rows[k][idx] != nv {
+				changed++
+			}
+			s.T.Rows[k][idx] = nv
+			s.Touched[k] = true
+			s.noteUpd(k, c.Name)
+		}
+		return fmt.Sprintf("UPDATE {T} SET %s WHERE %s", set, p.sql(s))
+	case k < 8: // delete
+		p := mPred{kind: 1, lo: lo, hi: lo + w/2}
+		for _, k := range s.T.Keys() {
+			if p.match(k) {
+				s.T.Delete(k)
+				s.Touched[k] = true
+				delete(s.UpdCols, k)
+				changed++
+			}
+		}
+		return fmt.Sprintf("DELETE FROM {T} WHERE %s", p.sql(s))
+	default: // block insert of absent keys, values by formula
+		salt := rapid.IntRange(0, 1).Draw(rt, label+".wsalt")
+		start := lo
+		if rapid.Bool().Draw(rt, label+".wappend") {
+			start = o.keyMax + rapid.IntRange(0, 50).Draw(rt, label+".wgap")
+		}
+		var tuples []string
+		for pk := start; pk < start+w/2+1; pk++ {
+			row := make(vsql.Row, len(s.Cols))
+			row[0] = strconv.Itoa(pk)
+			if s.NPK == 2 {
+				row[1] = mPK2Domain(s.Cols[1].Kind)[0]
+			}
+			if _, ok := s.T.Rows[s.T.Key(row)]; ok {
+				continue
+			}
+			lits := make([]string, len(row))
+			for i, c := range s.Cols {
+				if i >= s.NPK {
+					d := mDomains[c.Kind]
+					row[i] = d[(pk*3+i+salt)%len(d)]
+				}
+				lits[i] = mLit(row[i], c.Kind)
+			}
+			s.T.Put(row)
+			k := s.T.Key(row)
+			s.Touched[k] = true
+			for _, c := range s.Cols[s.NPK:] {
+				s.noteUpd(k, c.Name)
+			}
+			tuples = append(tuples, "("+strings.Join(lits, ",")+")")
+			changed++
+		}
+		if len(tuples) == 0 {
+			return "DELETE FROM {T} WHERE pk < 0" // nothing absent in the block: a no-op statement
+		}
+		return fmt.Sprintf("INSERT INTO {T} (%s) VALUES %s", strings.Join(mNames(s.Cols), ","), strings.Join(tuples, ","))
+	}
 }
 
 // genDisjointUpdate: a point UPDATE of a row the other side also UPDATEd, on a column the other
@@ -800,6 +904,10 @@ func (sc *mSchemaChange) String() string { return fmt.Sprintf("%s@%d", sc.DDL, s
 // mGenSchemaChange draws one compatible schema change for a table of spec sp. The indexed column
 // is never dropped (that would also drop the index, a second schema change).
 func mGenSchemaChange(rt *rapid.T, sp mSpec) *mSchemaChange {
+	return mGenSchemaChangeOf(rt, sp, []string{"add", "add", "drop", "reorder", "widen"})
+}
+
+func mGenSchemaChangeOf(rt *rapid.T, sp mSpec, kinds []string) *mSchemaChange {
 	sc := &mSchemaChange{At: rapid.IntRange(0, 8).Draw(rt, "sc.at")}
 	vals := sp.Cols[sp.NPK:]
 	pos := func(exclude string) string {
@@ -819,7 +927,7 @@ func mGenSchemaChange(rt *rapid.T, sp mSpec) *mSchemaChange {
 			return " AFTER " + names[i]
 		}
 	}
-	kind := rapid.SampledFrom([]string{"add", "add", "drop", "reorder", "widen"}).Draw(rt, "sc.kind")
+	kind := rapid.SampledFrom(kinds).Draw(rt, "sc.kind")
 	if kind == "widen" {
 		var cands []mCol
 		for _, c := range vals {
